@@ -366,7 +366,7 @@ def evaluate(ctx, cases, stream=None):
                 break
         if st != 'valid':
             if obs['quiet']['outer'] is not None:
-                ctx.fail(f'{base}|near|quiet-raises|{obs["quiet"]["outer"]}', f'quiet mode raised on `{" ".join(lines[0][0])}`', payload)
+                ctx.fail(f'{base}|near|quiet-raises|{obs["quiet"]["outer"]}', f'quiet mode raised {obs["quiet"]["outer"]} on the damaged line `{" ".join([case.get("kwtext", case["kw"])] + case["toks"])}`', payload)
             continue
         if not acc.get('valid', True):
             raise RuntimeError(f'generator left the specification: {case}')
@@ -400,7 +400,7 @@ def evaluate(ctx, cases, stream=None):
         if not bad_modes:
             a = [(obs[m]['atoms'], obs[m]['restraint'], obs[m]['hklf'], obs[m]['end'], obs[m]['wght'], obs[m]['errline']) for m in MODES]
             if a[0] != a[1] or a[0] != a[2]:
-                ctx.fail(f'{base}|modes-disagree', f'quiet/verbose/debug give different models for `{" ".join(lines[0][0])}`', payload)
+                ctx.fail(f'{base}|modes-disagree', f'quiet/verbose/debug give different models for `{" ".join([case.get("kwtext", case["kw"])] + case["toks"])}`', payload)
 
 
 # ----------------------------------------------------------------------------------------------------------------
